@@ -176,3 +176,50 @@ for _c in ('gravity.c', 'collision.c', 'tools.c', 'particle.c', 'boundary.c', 't
            'integrator_saba.c', 'integrator_eos.c', 'integrator_janus.c', 'integrator_ias15.c', 'integrator_bs.c', 'integrator.c', 'rebound.c', 'output.c', 'input.c',
            'binarydiff.c', 'simulationarchive.c', 'transformations.c', 'rotations.c', 'server.c', 'integrator_sei.c', 'integrator_leapfrog.c'):
     VARIANTS.append(('locals:' + _c, _rename_all_locals(_c)))
+
+
+def preincrement(root):
+    """i++ -> ++i in for headers (value unused)"""
+    n = 0
+    for p in _files(root, 'src', ('.c',)):
+        s = open(p).read()
+        s2, k = re.subn(r';\s*(\w+)\+\+\)\{', r'; ++\1){', s)
+        open(p, 'w').write(s2)
+        n += k
+    return n
+
+
+def add_unused_helpers(root):
+    n = 0
+    for rel in ('src/tools.c', 'src/collision.c', 'src/gravity.c', 'src/integrator_whfast.c', 'src/particle.c', 'src/simulationarchive.c'):
+        p = os.path.join(root, rel)
+        s = open(p).read()
+        s += '\n\n/* added by the self-test: an unused helper */\nstatic inline double reb_selftest_square_%d(const double v){\n    return v*v;\n}\n' % n
+        open(p, 'w').write(s)
+        n += 1
+    return n
+
+
+def move_functions(root):
+    """move the last function of a file in front of the one before it (declaration order is irrelevant: prototypes exist)"""
+    n = 0
+    n += _sub(root, 'src/integrator_leapfrog.c', 'void reb_integrator_leapfrog_synchronize(struct reb_simulation* r){\n\t// Do nothing.\n}\n', '', must=False)
+    p = os.path.join(root, 'src/integrator_leapfrog.c')
+    s = open(p).read()
+    if 'reb_integrator_leapfrog_synchronize' not in s.split('reb_integrator_leapfrog_part1')[0]:
+        s = s.replace('void reb_integrator_leapfrog_part1(', 'void reb_integrator_leapfrog_synchronize(struct reb_simulation* r){\n\t// Do nothing.\n}\n\nvoid reb_integrator_leapfrog_part1(', 1)
+    open(p, 'w').write(s)
+    return n
+
+
+def named_counts(root):
+    """r->N - r->N_var through a named local; explicit comparison with 0"""
+    n = 0
+    n += _sub(root, 'src/boundary.c', 'int N = r->N - r->N_var; // variational particles are tangent vectors, not positions',
+              'const int N_variational = r->N_var;\n\tint N = r->N - N_variational;')
+    n += _sub(root, 'src/collision.c', '    int N = r->N - r->N_var;\n    int Ninner = N;', '    const int N_all = r->N;\n    int N = N_all - r->N_var;\n    int Ninner = N;')
+    n += _sub(root, 'src/rebound.c', '    if (r->exit_max_distance){', '    if (r->exit_max_distance != 0.){')
+    return n
+
+
+VARIANTS += [('preincrement', preincrement), ('add_unused_helpers', add_unused_helpers), ('move_functions', move_functions), ('named_counts', named_counts)]
